@@ -1028,7 +1028,11 @@ type hammerStats struct {
 func (r *cfgRun) hammer(targets []hammerTarget, stop chan struct{}, hs []*hammerStats) *sync.WaitGroup {
 	var wg sync.WaitGroup
 	for i, t := range targets {
-		for w := 0; w < 2; w++ {
+		workers := 2
+		if t.l.Proto == 0 {
+			workers = 5 // connections must keep arriving within the hand-over window
+		}
+		for w := 0; w < workers; w++ {
 			wg.Add(1)
 			go func(i int, t hammerTarget) {
 				defer wg.Done()
@@ -1483,6 +1487,24 @@ func genHistory(rng *Rng, faultBias int) *cfgHistory {
 	n := 3 + rng.Intn(4)
 	for i := 0; i < n; i++ {
 		f := genConfig(rng, h.NAddrs, h.NLegacy, &idc)
+		retryP := 12
+		if i > 0 {
+			switch h.Files[len(h.Files)-1].Fault {
+			case "prebound", "bad-cipher-service", "bad-cipher-legacy": // failed while starting
+				retryP = 55
+			}
+		}
+		if i > 0 && rng.Chance(retryP) {
+			// the operator retries with the very same file (after a failed reload: the obstacle, if it
+			// was an occupied address, is gone now; a file that cannot load fails again)
+			b, _ := json.Marshal(h.Files[len(h.Files)-1])
+			var cp cfgFile
+			json.Unmarshal(b, &cp)
+			cp.Prebind = nil
+			cp.Fault = "retry-same-file"
+			h.Files = append(h.Files, cp)
+			continue
+		}
 		if i > 0 && rng.Chance(faultBias) {
 			injectFault(rng, &f, h.NAddrs, &idc, nil)
 		} else if i > 0 && rng.Chance(15) && len(h.Files) > 0 && h.Files[len(h.Files)-1].Kind == 0 {
